@@ -100,6 +100,20 @@ CHECKS = {
         "== on returned diagrams is trusted (C03). Known finding: dagger of swaps with multi-wire images "
         "(known_findings.json). Bounds in evidence.",
         "DESIGN.md 4/C04"),
+    "C07": (
+        "explicit-state exploration of the bounded rigid universe with the normalize() generator of the "
+        "real code driven step by step (RewriteExplorer) against reference wiring/linear-algebra models",
+        "Every rigid diagram up to the depth/width bound that contains a cap (caps and cups of every adjoint "
+        "pair of winding -2..2 in both orders, uniquely named polymorphic boxes with 0..2 inputs and 0..1 "
+        "outputs), plus a directed family of left/right snakes with every interleaving of obstructions, is "
+        "normalised with both flags. Every yielded step must pass the C01 scan, keep dom/cod and class, keep "
+        "the wiring graph and loop count (equivalent to equal value under every tensor functor) and the "
+        "exact generic-matrix value for dim 2 and 3, and be either one box moved by legal interchanges or "
+        "the removal of one cap/cup pair certified by the reference wire follower; the final value has no "
+        "yankable pair; only NotImplementedError may be raised, and only for disconnected box graphs.",
+        "Trusted: reference follower / wiring / matrices in mc/ref.py and mc/c07.py; numpy. 'Satisfies a "
+        "snake equation' is read type-wise (cup.dom == reversed cap.cod). Bounds in evidence.",
+        "DESIGN.md 4/C07"),
 }
 
 PENDING_REASON = ("check not built yet in this session (planned: bounded exhaustive exploration as in "
